@@ -1573,10 +1573,11 @@ def kernel32_lstrcpyn(jitter):
     ret_ad, args = jitter.func_args_stdcall(["ptr_str1", "ptr_str2",
                                              "mlen"])
     s2 = get_win_str_a(jitter, args.ptr_str2)
-    if len(s2) >= args.mlen:
-        s2 = s2[:args.mlen - 1]
-    log.info("Copy '%r'", s2)
-    set_win_str_a(jitter, args.ptr_str1, s2)
+    if args.mlen > 0:
+        if len(s2) >= args.mlen:
+            s2 = s2[:args.mlen - 1]
+        log.info("Copy '%r'", s2)
+        set_win_str_a(jitter, args.ptr_str1, s2)
     jitter.func_ret_stdcall(ret_ad, args.ptr_str1)
 
 
